@@ -149,14 +149,21 @@ Qed.
 
 (* the frame of new_session and of the steps built around it *)
 Definition NS (na : naddr) (se : session) (s s' : st) : Prop :=
-  challenges (hs s') = challenges (hs s) /\ SessN na se (hs s) (hs s') /\ OutsExt quiet_out s s'.
+  challenges (hs s') = challenges (hs s) /\ SessN na se (hs s) (hs s') /\ OutsExt quiet_out s s' /\
+  UPres (hs s) (hs s').
 
 Lemma NS_Quiet_after na se a b d : NS na se a b -> Quiet b d -> NS na se a d.
 Proof.
-  intros [E1 [N1 O1]] [[E2 D2] O2]. split; [congruence | split].
+  intros [E1 [N1 [O1 U1]]] [[E2 [D2 U2]] O2]. split; [congruence | split; [| split]].
   - eapply SessN_D; eauto.
   - eapply OutsExt_trans; eauto.
+  - intros H. apply U2. apply U1. exact H.
 Qed.
+
+Lemma NoDup_tl {A} (l : list A) : NoDup l -> NoDup (tl l).
+Proof. destruct l; cbn; [auto |]. intros H; inversion H; auto. Qed.
+Lemma map_tl' {A B} (f : A -> B) (l : list A) : map f (tl l) = tl (map f l).
+Proof. destruct l; reflexivity. Qed.
 
 Lemma NS_new_session c s na se skip now : NS na se s (new_session c s na se skip now).
 Proof.
@@ -169,7 +176,10 @@ Proof.
     set (cs' := {| s_enc := s_enc se; s_dec := s_dec se; s_old := Some (s_enc cs, s_dec cs);
                    s_await := s_await se; s_counter := s_counter cs |}).
     assert (H1 : NS na se s (with_hs s (sess_put h1 na cs'))).
-    { split; [cbn; apply Hg | split; [| apply OutsExt_same; reflexivity]].
+    { split; [cbn; apply Hg | split; [| split; [apply OutsExt_same; reflexivity |]]].
+      2:{ destruct Hg as [_ [_ Ug]]. intros HU. apply Ug in HU. unfold SessUniq in *.
+          cbn [hs with_hs sess_put sessions set_sessions]. rewrite alist_set_keys; [exact HU |].
+          apply in_map_iff. exists (na, cs). split; [reflexivity | apply Hgot; reflexivity]. }
       intros na' se' H. cbn [hs with_hs sess_put sessions set_sessions] in H.
       apply In_alist_set in H. destruct H as [H | H].
       - inversion H; subst na' se'. left. exists cs. split; [apply Hin; apply Hgot; reflexivity |].
@@ -185,7 +195,11 @@ Proof.
     + eapply Quiet_trans; [apply Quiet_replay | apply Quiet_send_pending_requests].
     + apply Quiet_replay.
   - eapply NS_Quiet_after; [| apply Quiet_send_pending_requests].
-    split; [cbn; apply Hg | split; [| apply OutsExt_same; reflexivity]].
+    split; [cbn; apply Hg | split; [| split; [apply OutsExt_same; reflexivity |]]].
+    2:{ destruct Hg as [_ [_ Ug]]. intros HU. apply Ug in HU. unfold SessUniq in *.
+        cbn [hs with_hs sess_insert sessions set_sessions].
+        pose proof (to_back_NoDup na se _ HU) as HN.
+        destruct (Nat.ltb _ _); [| exact HN]. rewrite map_tl'. apply NoDup_tl. exact HN. }
     intros na' se' H. cbn [hs with_hs sess_insert sessions set_sessions] in H.
     assert (H' : In (na', se') (alist_remove na (sessions h1) ++ [(na, se)])).
     { destruct (Nat.ltb _ _); [apply tl_In |]; exact H. }
